@@ -60,3 +60,23 @@ Theorem C16_unlocked_reads_are_stable : forall s e, reach s -> wf_ev e -> interf
   head_kept s (fst (step true s e)).
 Proof. exact unlocked_reads_are_stable. Qed.
 Print Assumptions C16_unlocked_reads_are_stable.
+
+(* ---- the sequential path (n_jobs resolves to 1): Model/ParallelSeq.v, proofs in Proofs/SeqThm.v *)
+Require Import JV.Model.ParallelSeq JV.Proofs.SeqThm.
+
+Theorem C16_seq_path_yields_in_order : forall s, qreach s ->
+  qdelivered s = seq 0 (length (qdelivered s)) /\
+  forall s1 v, qstep s QNext = (s1, [QVal v]) -> v = length (qdelivered s) /\ qdelivered s1 = qdelivered s ++ [v].
+Proof. exact seq_generator_yields_in_order. Qed.
+Print Assumptions C16_seq_path_yields_in_order.
+
+(* safe to abandon: closing or dropping the generator at any point stops the consumption and releases the object *)
+Theorem C16_seq_path_close_releases : forall s, qreach s ->
+  qrunning (fst (qstep s QClose)) = false /\ qalive (fst (qstep s QClose)) = false /\
+  qtaken (fst (qstep s QClose)) = qtaken s.
+Proof. exact seq_close_releases. Qed.
+Print Assumptions C16_seq_path_close_releases.
+
+Theorem C16_seq_path_busy_call_is_refused : forall s cf, qrunning s = true -> qstep s (QCall cf) = (s, [QRaised ErrRuntime]).
+Proof. exact seq_busy_call_is_refused. Qed.
+Print Assumptions C16_seq_path_busy_call_is_refused.
